@@ -1,5 +1,4 @@
 import enum
-from operator import itemgetter
 
 from annet.annlib.netdev.views.hardware import HardwareView
 from annet.annlib.tabparser import CommonFormatter
@@ -71,7 +70,9 @@ class Registry:
                     matched.append((vendor, item.count(".")))
 
         if matched:
-            return next(iter(sorted(matched, key=itemgetter(1), reverse=True)))[0]
+            # most dotted expression wins; equally specific matches are ordered by vendor name,
+            # so the result does not depend on the order vendors were registered in
+            return min(matched, key=lambda item: (-item[1], item[0].NAME))[0]
         if default is sentinel:
             return GENERIC_VENDOR
         return default
